@@ -8,6 +8,7 @@ CONSTANTS
   FrozenCloseOk = TRUE
   SerialiseKill = TRUE
   MaxT = 12
+  Lag = 0
 INVARIANTS KillPost GracefulRespected MarkerIffGraceful Bounded
 PROPERTIES KillTerminates
 CHECK_DEADLOCK FALSE
